@@ -9,7 +9,8 @@
                 assignment-style instance names have their four "_" separated fields.
    no_asg a   : no instance is named SDN_Assignment_...                                        *)
 From Coq Require Import List.
-From SV Require Import Base.Base Cmp.Comparer Cmp.Diff Proofs.CmpWitness Proofs.CmpProps.
+From SV Require Import Base.Base Cmp.Comparer Cmp.Diff Cmp.Equiv Proofs.CmpWitness Proofs.CmpProps
+  Proofs.CmpSound Proofs.CmpComplete Proofs.CmpSoundExact.
 
 (* ---- accepts: a named netlist compared with itself / a structurally equal copy ---- *)
 Theorem C20_accepts : forall a, wf_named a -> compare a a = true.
@@ -167,6 +168,155 @@ Theorem C20_rejects_by_assertion : forall a b m, wf_named a -> no_asg a -> notic
   cmp_run a b = Reject.
 Proof. exact rejects_all_assertion. Qed.
 Print Assumptions C20_rejects_by_assertion.
+
+(* ==== the general characterisation: SOUNDNESS and COMPLETENESS of the comparer ====
+   Cmp/Equiv.v defines structural equivalence without reference to the comparer:
+     nv_equiv a b     same netlist name; same top instance; the libraries of b are a rearrangement
+                      of libraries related one by one to those of a: same name, and their
+                      definitions again matched as a set: same name, ports matched as a set (name,
+                      direction, array-ness, width), cables matched as a set (name, same number of
+                      wires, the wire at each index carries the same pins - a permutation of the
+                      same pin designators (instance name, port name, index)), instances matched as
+                      a set (name, reference = definition name + library name, the same properties
+                      (entry, key) with ==-equal values); original identifiers equal throughout
+     nv_equiv_ord a b the same with the pins of every wire listed in the same order
+     nv_covered a b   like nv_equiv_ord, but the properties of a only have to occur in b
+     no_extra_props a b : instances of b have no property that the instance of a at the same
+                      place (library, definition, instance name / top) lacks                    *)
+
+(* SOUNDNESS: no structural difference is ever accepted.  Nothing is assumed about b. *)
+Theorem C20_sound : forall a b, wf_named a -> no_asg a -> no_extra_props a b ->
+  compare a b = true -> nv_equiv_ord a b.
+Proof. exact compare_sound. Qed.
+Print Assumptions C20_sound.
+
+Theorem C20_sound_sets : forall a b, wf_named a -> no_asg a -> no_extra_props a b ->
+  compare a b = true -> nv_equiv a b.
+Proof. exact compare_sound_set. Qed.
+Print Assumptions C20_sound_sets.
+
+(* without the side condition on properties: everything but properties only b has *)
+Theorem C20_sound_covered : forall a b, wf_named a -> no_asg a -> compare a b = true -> nv_covered a b.
+Proof. exact compare_sound_covered. Qed.
+Print Assumptions C20_sound_covered.
+
+(* the hypotheses are satisfiable by two different netlists (siblings in another order at every
+   level; corpus/cmp/c20-perm.json, accepted by the real Comparer on every run) *)
+Example C20_sound_ex :
+  exists a b, a <> b /\ wf_named a /\ no_asg a /\ no_extra_props a b /\ compare a b = true.
+Proof. exact sound_ex. Qed.
+Print Assumptions C20_sound_ex.
+
+(* the side condition follows from the acceptance of the reverse comparison *)
+Theorem C20_no_extra_props_by_reverse : forall a b, wf_named a -> wf_named b -> no_asg b ->
+  compare b a = true -> no_extra_props a b.
+Proof.
+  intros a b Ha Hb Nb H. apply covered_no_extra; [exact Ha|]. apply compare_sound_covered; assumption.
+Qed.
+Print Assumptions C20_no_extra_props_by_reverse.
+Example C20_no_extra_props_by_reverse_ex :
+  exists a b, a <> b /\ wf_named a /\ wf_named b /\ no_asg b /\ compare b a = true.
+Proof. exact reverse_ex. Qed.
+
+(* contrapositive: ANY difference (one, two, many at once) is refused *)
+Theorem C20_rejects_every_difference : forall a b, wf_named a -> no_asg a -> ~ nv_covered a b ->
+  compare a b = false.
+Proof. exact not_covered_rejected. Qed.
+Print Assumptions C20_rejects_every_difference.
+
+Theorem C20_rejects_every_structural_difference : forall a b, wf_named a -> no_asg a ->
+  no_extra_props a b -> ~ nv_equiv_ord a b -> compare a b = false.
+Proof. exact not_equiv_rejected. Qed.
+Print Assumptions C20_rejects_every_structural_difference.
+Example C20_rejects_every_structural_difference_ex :
+  exists a b, wf_named a /\ no_asg a /\ no_extra_props a b /\ ~ nv_equiv_ord a b.
+Proof. exact structural_difference_ex. Qed.
+
+(* two simultaneous differences (corpus/cmp/c20-double.json) *)
+Example C20_two_differences_ex : exists a b, wf_named a /\ wf_named b /\ no_asg a /\ ~ nv_covered a b.
+Proof. exact double_ex. Qed.
+
+(* COMPLETENESS: every equivalent netlist is accepted, whatever the order of its siblings;
+   assignment-style instance names allowed.  Generalises C20_accepts (b = a). *)
+Theorem C20_complete : forall a b, wf_named a -> wf_named b -> nv_equiv_ord a b -> compare a b = true.
+Proof. exact compare_complete. Qed.
+Print Assumptions C20_complete.
+
+Theorem C20_complete_covered : forall a b, wf_named a -> wf_named b -> nv_covered a b -> compare a b = true.
+Proof. exact compare_complete_covered. Qed.
+Print Assumptions C20_complete_covered.
+
+Example C20_complete_ex : exists a b, a <> b /\ wf_named a /\ wf_named b /\ nv_equiv_ord a b.
+Proof. exact complete_ex. Qed.
+Print Assumptions C20_complete_ex.
+
+(* what compare() decides on named netlists, exactly *)
+Theorem C20_exact : forall a b, wf_named a -> wf_named b -> no_asg a ->
+  (compare a b = true <-> nv_covered a b).
+Proof. exact compare_iff_covered. Qed.
+Print Assumptions C20_exact.
+
+Theorem C20_exact_both_ways : forall a b, wf_named a -> wf_named b -> no_asg a -> no_asg b ->
+  (compare a b = true /\ compare b a = true <-> nv_equiv_ord a b).
+Proof. exact compare_both_ways. Qed.
+Print Assumptions C20_exact_both_ways.
+
+(* the class-by-class theorems above (C20_rejects_port_dir ... C20_rejects_inst_drop, all 19
+   noticed classes) as corollaries of soundness, in acceptance form: a single difference of a
+   noticed class breaks the covered relation, hence is refused *)
+Theorem C20_single_difference_not_equivalent : forall m a b, wf_named a -> noticed m = true ->
+  nv_diff m a b -> ~ nv_covered a b.
+Proof. exact nv_diff_not_covered. Qed.
+Print Assumptions C20_single_difference_not_equivalent.
+
+Theorem C20_rejects_by_soundness : forall m a b, wf_named a -> no_asg a -> noticed m = true ->
+  nv_diff m a b -> compare a b = false.
+Proof. exact rejects_by_soundness. Qed.
+Print Assumptions C20_rejects_by_soundness.
+
+Theorem C20_rejects_single_diff_by_soundness : forall a b, wf_named a -> no_asg a -> single_diff a b ->
+  compare a b = false.
+Proof. exact single_diff_rejected_by_soundness. Qed.
+Print Assumptions C20_rejects_single_diff_by_soundness.
+
+(* each side condition of C20_sound is exactly an open finding, and the hole is real:
+   - no_extra_props: properties that only the second netlist has (C20-extra-properties) *)
+Theorem C20_sound_needs_no_extra_props :
+  exists a b, wf_named a /\ wf_named b /\ no_asg a /\ no_asg b /\ compare a b = true /\ ~ nv_equiv_ord a b.
+Proof. exact extra_props_hole. Qed.
+Print Assumptions C20_sound_needs_no_extra_props.
+
+(* - no_asg: assignment instances are not compared, not even when comparing both ways
+     (C20-assignment-instances-not-compared) *)
+Theorem C20_sound_needs_no_asg :
+  exists a b, wf_named a /\ wf_named b /\ compare a b = true /\ compare b a = true /\ ~ nv_covered a b.
+Proof. exact assignment_hole. Qed.
+Print Assumptions C20_sound_needs_no_asg.
+(* - wf_named: unnamed elements and names with * or ? : C20_refuted_unnamed,
+     C20_refuted_self_wildcard_names below *)
+
+(* COMPLETENESS fails when the pins of a wire are taken as a set: the comparer zips the two pin
+   lists, so the same connectivity listed in another order is refused
+   (witness corpus/cmp/c20-pin-order.json, replayed on the real Comparer on every run;
+   finding C20-pin-order-sensitive) *)
+Definition C20_complete_for_pin_sets : Prop :=
+  forall a b, wf_named a -> wf_named b -> nv_equiv a b -> compare a b = true.
+
+Theorem C20_complete_for_pin_sets_refuted : ~ C20_complete_for_pin_sets.
+Proof. exact complete_for_pin_sets_refuted. Qed.
+Print Assumptions C20_complete_for_pin_sets_refuted.
+
+Theorem C20_pin_order_rejected :
+  exists a b, wf_named a /\ wf_named b /\ no_asg a /\ no_asg b /\ nv_equiv a b /\ cmp_run a b = Reject.
+Proof. exact pin_order_witness. Qed.
+Print Assumptions C20_pin_order_rejected.
+
+(* the lower index of a port is not part of the property's list (direction, width, array-ness)
+   and is never read by the comparer (witness corpus/cmp/c20-lower-index.json) *)
+Theorem C20_lower_index_not_compared :
+  exists a b, a <> b /\ wf_named a /\ wf_named b /\ nv_equiv_ord a b /\ compare a b = true.
+Proof. exact lower_index_witness. Qed.
+Print Assumptions C20_lower_index_not_compared.
 
 (* ---- the property at full strength (every class, no exclusion of assignment names) ---- *)
 Definition C20_full : Prop :=
